@@ -121,19 +121,28 @@ def run(ctx):
             data = bytes(rng.getrandbits(8) for _ in range(rng.choice([6, 10, 12, 16, 18, 22, rng.randrange(0, 30)])))
             dbsn = rng.randrange(128)
             m = rng.choice([CrcMasks.Rate12DataContinuation, CrcMasks.Rate34DataContinuation, CrcMasks.Rate1DataContinuation])
-            c32 = rng.choice([None, None, bytes(rng.getrandbits(8) for _ in range(4))])
-            if c32 == b"\x00\x00\x00\x00":
-                c32 = None
+            # the CRC-32 part as four octets, including the values an "is it there?" test could mistake for absent
+            c32 = rng.choice([None, None, bytes(rng.getrandbits(8) for _ in range(4)), bytes(rng.getrandbits(8) for _ in range(4)),
+                              bytes(4), b"\x00\x00\x00\x01", b"\x80\x00\x00\x00", b"\xff\xff\xff\xff"])
             fe9(data, dbsn, m.value, c32, CRC9.calculate_from_parts(data, dbsn, m, crc32=c32))
         elif k == "16":
             data = bytes(rng.getrandbits(8) for _ in range(rng.choice([10, 10, rng.randrange(0, 40)])))
             m = rng.choice(masks)
-            out = CRC16.calculate(data, m)
-            fe16(data, m.value, out, CRC16.check(data, out, m), CRC16.check(data, out ^ (1 << rng.randrange(16)), m))
+            buf = bytearray(data) if rng.random() < 0.5 else data
+            CRC16.calculate(buf, m)
+            out = CRC16.calculate(buf, m)
+            fe16(data, m.value, out, CRC16.check(buf, out, m), CRC16.check(buf, out ^ (1 << rng.randrange(16)), m))
+            if bytes(buf) != data:
+                fe16(data, m.value, out ^ 1, False, True)
         else:
             data = bytes(rng.getrandbits(8) for _ in range(rng.choice([rng.randrange(0, 60), rng.randrange(0, 60), 20])))
-            out = CRC32.calculate(data)
-            fe32(data, out, CRC32.check(data, out), CRC32.check(data, out ^ (1 << rng.randrange(32))))
+            # half of the callers own a mutable buffer and use it for several calls (calculate, calculate again, verify)
+            buf = bytearray(data) if rng.random() < 0.5 else data
+            CRC32.calculate(buf)
+            out = CRC32.calculate(buf)
+            fe32(data, out, CRC32.check(buf, out), CRC32.check(buf, out ^ (1 << rng.randrange(32))))
+            if bytes(buf) != data:
+                fe32(data, (out + 1) & 0xFFFFFFFF, False, True)      # recorded as a wrong checksum: the buffer was altered
     for f in fe:
         ctx.count(core.digest(f))
     data = {"obs": obs, "fe": fe}
